@@ -24,7 +24,7 @@ OBJECT_LISTS = {"layers": "layer", "classes": "class", "styles": "style", "symbo
 KV_BLOCKS = ("metadata", "validation", "values", "connectionoptions")
 REPEATED = ("processing", "formatoption", "include", "compfilter")
 WORDS = ["roads", "Layer 1", "a.b", "x_y", "café", "中文", "value-7", "semi;colon", "two  spaces", "it is", "100%", "tab\there",
-         "", " padded ", "two\nlines", "it's", "'primary' and 'secondary'", "'x'", '"a" or "b"', 'say "hi"', "(not an expression", "[half", "#hash", "/slash"]
+         "", " padded ", "two\nlines", "7", "12.5", "1e3", "-3", "nan", "true", "off", "it's", "'primary' and 'secondary'", "'x'", '"a" or "b"', 'say "hi"', "(not an expression", "[half", "#hash", "/slash"]
 
 
 # ------------------------------------------------------------------ the independent reader
@@ -159,6 +159,10 @@ class Vocab:
                 if tgt:
                     if tgt in self.types and k == tgt:
                         ch.append((k, tgt, False))
+                    # e.g. STYLE SYMBOL: an inline SYMBOL block, or a symbol name (string), or an index (number)
+                    kinds = sorted(set(self._kinds(node, k)))
+                    if kinds:
+                        kws[k] = kinds
                     continue
                 kinds = sorted(set(self._kinds(node, k)))
                 if kinds:
@@ -187,7 +191,10 @@ class Vocab:
         if not isinstance(node, dict) or depth > 6:
             return []
         if "$ref" in node:
-            return self._kinds(self.raw.get(node["$ref"][:-5], {}), key, depth + 1)
+            tgt = self.raw.get(node["$ref"][:-5], {})
+            if isinstance(tgt, dict) and "properties" in tgt:
+                return []  # an object type: not a scalar alternative
+            return self._kinds(tgt, key, depth + 1)
         out = []
         for k in ("oneOf", "anyOf", "allOf"):
             if isinstance(node.get(k), list):
